@@ -21,13 +21,19 @@ pub fn for_property(p: &str) -> Option<&'static dyn Scenario> {
 
 /// Swarm: every run draws its own scheduler policy and hook-point subset.
 pub fn swarm_policy(rng: &mut Rng, est_len: u64) -> Value {
+    swarm_policy_edges(rng, est_len, 1000)
+}
+/// `est_edges`: typical number of instrumented basic-block edges one run of the scenario executes.
+pub fn swarm_policy_edges(rng: &mut Rng, est_len: u64, est_edges: u64) -> Value {
     let policy = match rng.below(8) {
         0..=3 => Policy::RandomWalk { stay: *rng.pick(&[500, 700, 800, 900, 950, 970]) },
         4 | 5 => Policy::Pct { depth: 1 + rng.below(4) as u32, est_len },
         _ => Policy::Uniform,
     };
     let point_permille = *rng.pick(&[1000u32, 1000, 700, 400, 200]);
-    json!({ "policy": policy, "point_permille": point_permille, "point_salt": rng.next_u64() >> 12 })
+    // half of the runs are also pre-empted at instrumented basic-block edges (between libc calls)
+    let preempt = if rng.chance(500) { *rng.pick(&[300u32, 600, 800, 900]) } else { 0 };
+    json!({ "policy": policy, "point_permille": point_permille, "point_salt": rng.next_u64() >> 12, "preempt_more_permille": preempt, "preempt_max_gap": if rng.chance(700) { est_edges } else { (est_edges / 8).max(4) }, "preempt_max_distinct": (est_edges / 3).clamp(30, 3000) })
 }
 pub fn apply_swarm(cfg: &mut Cfg, w: &Value) {
     if let Ok(p) = serde_json::from_value::<Policy>(w["sched"]["policy"].clone()) {
@@ -38,6 +44,15 @@ pub fn apply_swarm(cfg: &mut Cfg, w: &Value) {
     }
     if let Some(v) = w["sched"]["point_salt"].as_u64() {
         cfg.point_salt = v;
+    }
+    if let Some(v) = w["sched"]["preempt_more_permille"].as_u64() {
+        cfg.preempt_more_permille = v as u32;
+    }
+    if let Some(v) = w["sched"]["preempt_max_gap"].as_u64() {
+        cfg.preempt_max_gap = v;
+    }
+    if let Some(v) = w["sched"]["preempt_max_distinct"].as_u64() {
+        cfg.preempt_max_distinct = v;
     }
 }
 pub fn tier_pick(tier: Tier, quick: u64, thorough: u64) -> u64 {
